@@ -85,6 +85,9 @@ def gen_case(rng, cosmology, t0, tier):
     # sampled (non-integer) slope (beta-(1-lambda)(1-beta))**(1/(gamma-1)) is NaN for small lambda -> nan_to_num
     m["dspl_low_beta"] = B(0.5)
     if t0 == "DSPL" and m["dspl_low_beta"] and rng.random() < 0.8: m["gamma_pl"] = ch(["global_NONE", "global_GAUSSIAN"])
+    # the proviso allows the prior box of an interpolated parameter to be the WHOLE interpolation range (the usual choice): then the
+    # edge vectors sit exactly on the first / last grid node
+    m["tight_bounds"] = B(0.35)
     return m
 
 
@@ -166,6 +169,11 @@ def build(m):
                         alpha_gamma_in=0.1, alpha_log_m2l=0.1, gamma_pl_mean=2.2, gamma_pl_sigma=0.1, gamma_pl_list=[2.4] * n_slopes),
               kin=dict(a_ani=A_ANI_AX[1] - 0.1, a_ani_sigma=0.5, beta_inf=BETA_INF_AX[1] - 0.05, beta_inf_sigma=0.3, sigma_v_sys_error=0.2),
               source=dict(mu_sne=30., sigma_sne=1.), los=[dict(mean=0.3, sigma=0.15, xi=0.5) for _ in m["los"]])
+    if m.get("tight_bounds"):
+        lo["kin"]["a_ani"], hi["kin"]["a_ani"] = float(A_ANI_AX[0]), float(A_ANI_AX[1])
+        lo["kin"]["beta_inf"], hi["kin"]["beta_inf"] = float(BETA_INF_AX[0]), float(BETA_INF_AX[1])
+        if not m["alpha_gamma_in_sampling"]: lo["lens"]["gamma_in"], hi["lens"]["gamma_in"] = float(GAMMA_IN_AX[0]), float(GAMMA_IN_AX[1])
+        if not m["alpha_log_m2l_sampling"]: lo["lens"]["log_m2l"], hi["lens"]["log_m2l"] = float(LOG_M2L_AX[0]), float(LOG_M2L_AX[1])
     fixed = dict(kwargs_fixed_cosmo={}, kwargs_fixed_lens={})
     if m["fix"] == "h0": fixed["kwargs_fixed_cosmo"]["h0"] = 72.5
     if m["fix"] == "om": fixed["kwargs_fixed_cosmo"]["om"] = 0.31
